@@ -180,3 +180,10 @@ PROPS["C04"]["trusted_base"] = PROPS["C04"]["trusted_base"] + ["tools/replysites
 PROPS["C09"]["kinds"] = ["c09", "tls", "conv", "c08", "cli"]
 PROPS["C09"]["rule"] = "c09: AUTH exchanges against the real server: scripted SASL servers of 0..3 challenges (empty, text, binary) ending in success / mechanism error / SMTPError / script exhaustion x initial response {none, '=', PLAIN-shaped, bad base64, binary} x later client lines {base64, '=', empty, '*', bad base64, binary} x {plaintext with AllowInsecureAuth, implicit TLS (real crypto/tls), plaintext without}, each followed by NOOP, a second AUTH and QUIT (quick: every 5th combination). " + PROPS["C09"]["rule"]
 PROPS["C04"]["kinds"] = ["conv", "c03", "c19", "c12", "c09", "reply"]
+
+PROPS["C11"] = {
+    "kinds": ["c11"],
+    "rule": "c11: one MAIL or RCPT line against the real server (EHLO, [MAIL], the line, QUIT); the reply code and the backend callback are recorded. Generators: grammar-derived valid lines for every parameter and combination x extension flags, single-point mutations, lists of faulty parameters / paths, all strings up to length 4 (thorough 5) over the alphabet < > @ : \" \\ SP a = + ; . after FROM:/TO:, random octets, keyword case variants incl. U+017F/U+0131/U+212A. Tags: verdict of the reference grammar (valid/invalid/unspecified), verb, parameter kinds. Nothing is trivial.",
+    "trusted_base": ["reference grammar RefGrammar.v (written from RFC 5321/1870/3461/4954/6531/6533/7293/3339/8689)"],
+    "assumptions": ["lines classified Unspecified by the reference grammar are not judged"],
+}
